@@ -78,7 +78,16 @@ type GlobalFact struct {
 	Using []string // axioms a lemma may use
 }
 
+type GhostDecl struct {
+	Name  string
+	Pkg   string
+	Type  ast.Expr
+	Where string
+}
+
 type Contracts struct {
+	Guarded   map[string]string // "Struct.field" -> mutex field
+	Ghosts    map[string]*GhostDecl
 	Funcs     map[string]*FuncSpec // key: pkg + "::" + Key
 	Defines   map[string]*Define   // by name (global)
 	Abstracts map[string]*Abstract
@@ -88,7 +97,7 @@ type Contracts struct {
 }
 
 func NewContracts() *Contracts {
-	return &Contracts{Funcs: map[string]*FuncSpec{}, Defines: map[string]*Define{}, Abstracts: map[string]*Abstract{}, Immutable: map[string]bool{}}
+	return &Contracts{Guarded: map[string]string{}, Ghosts: map[string]*GhostDecl{}, Funcs: map[string]*FuncSpec{}, Defines: map[string]*Define{}, Abstracts: map[string]*Abstract{}, Immutable: map[string]bool{}}
 }
 
 var reProps = regexp.MustCompile(`^\[([A-Za-z0-9, ]+)\]`)
@@ -318,6 +327,22 @@ func (c *Contracts) Load(path string, defaultPkg string) error {
 				return fail(fmt.Errorf("duplicate define %s", d.Name))
 			}
 			c.Defines[d.Name] = d
+			cur = nil
+		case "guarded":
+			// guarded Struct.field by mu
+			fs := strings.Fields(rest)
+			if len(fs) != 3 || fs[1] != "by" {
+				return fail(fmt.Errorf("expected: guarded Struct.field by mutexField"))
+			}
+			c.Guarded[fs[0]] = fs[2]
+			cur = nil
+		case "ghost":
+			name, ty := splitWord(rest)
+			te, err := parser.ParseExpr(ty)
+			if err != nil {
+				return fail(fmt.Errorf("bad ghost type %q: %v", ty, err))
+			}
+			c.Ghosts[name] = &GhostDecl{Name: name, Pkg: pkg, Type: te, Where: where}
 			cur = nil
 		case "abstract":
 			a, err := parseAbstract(rest)
